@@ -156,6 +156,55 @@ def c16(ck, thorough):
     calls(ck, "c16_recipe", "recipe", scale=6 if thorough else 1, mks=ALLK, an="no", flav="find")
 
 
+def c10(ck, thorough):
+    """span locality"""
+    mc(ck, "ACBaseMC", "c10_oracle",
+       {"Sigma": tla_set([1, 2]), "MaxPats": 2, "MaxPatLen": 2, "MaxHay": 5 if thorough else 4,
+        "Kinds": tla_set(ALLK), "CIs": tla_set([False])},
+       ["SpanLocal", "OutsideIrrelevant", "MatchesInSpan", "Consistent"])
+    mc(ck, "ACSearch", "c10_search", search_consts(ALLK, [False, True], [False], [False, True], thorough),
+       SEARCH_INV, ["PositionMonotone"])
+    calls(ck, "c10_span", "span", scale=3 if thorough else 1, mks=ALLK, an="both", flav="all")
+
+
+def ci_consts(d, big=False):
+    d = dict(d)
+    d["Sigma"] = tla_set([97, 65, 98, 64] if big else [97, 65, 64])
+    d["CIs"] = tla_set([True])
+    d["MaxPatLen"] = 2
+    d["MaxHay"] = 3
+    return d
+
+
+def c11(ck, thorough):
+    """ASCII case-insensitivity"""
+    mc(ck, "ACSearch", "c11_search",
+       ci_consts(search_consts(ALLK, [False, True], [False], [False, True], False), thorough),
+       SEARCH_INV, ["PositionMonotone"])
+    mc(ck, "ACIter", "c11_iter", ci_consts(iter_consts(ALLK, [False], False), thorough), ITER_INV, ["Progress"])
+    mc(ck, "ACOverlap", "c11_overlap", ci_consts(overlap_consts([False, True], [False], False), thorough),
+       ["OverlapCorrect", "StateSane"], view="View")
+    product(ck, "c11", ["ci", "ci3"] if thorough else ["ci"], full=True, shards=4, mks=ALLK)
+    calls(ck, "c11_ci", "ci", scale=4 if thorough else 1, mks=ALLK, an="both", flav="all")
+
+
+def c12(ck, thorough):
+    """replace_all"""
+    mc(ck, "ACReplace", "c12_bytes",
+       {"Sigma": tla_set([1, 2]), "MaxPats": 2, "MaxPatLen": 2, "MaxHay": 4, "Kinds": tla_set(ALLK),
+        "CIs": tla_set([False]), "Strs": tla_set([False]), "ReplSet": '"bytes"',
+        "MaxStop": 2},
+       ["ReplaceCorrect", "SlicesOnBoundaries", "OutputUtf8"], ["LastMonotone"])
+    # &str variant: 'a' and the two bytes of U+00E9; byte patterns may split the character
+    mc(ck, "ACReplace", "c12_str",
+       {"Sigma": tla_set([97, 195, 169]), "MaxPats": 2, "MaxPatLen": 2,
+        "MaxHay": 5 if thorough else 4, "Kinds": tla_set(ALLK),
+        "CIs": tla_set([False]), "Strs": tla_set([True]), "ReplSet": '"str"',
+        "MaxStop": 1},
+       ["ReplaceCorrect", "SlicesOnBoundaries", "OutputUtf8"], ["LastMonotone"])
+    calls(ck, "c12_replace", "replace", scale=4 if thorough else 1, mks=ALLK, an="no", flav="all")
+
+
 def c13(ck, thorough):
     """rejection depends only on configuration: the whole finite matrix, every kind"""
     events_trace(ck, "c13_matrix", "matrix", [], "TraceApi", "TraceApi.cfg", "rejection-matrix",
@@ -175,6 +224,9 @@ CHECKS = {
     "C07": (c07, "model_checking"),
     "C08": (c08, "model_checking"),
     "C09": (c09, "model_checking"),
+    "C10": (c10, "model_checking"),
+    "C11": (c11, "model_checking"),
+    "C12": (c12, "model_checking"),
     "C13": (c13, "model_checking"),
     "C14": (c14, "model_checking"),
     "C16": (c16, "model_checking"),
